@@ -3,8 +3,8 @@
 Oracle: directional central finite differences (float64, eps=1e-6, random direction in (y0, all parameters)) of a
 random linear functional of ALL outputs, against autograd. Adaptive runs: the nominal run's controller decisions
 (error estimates and proposed step sizes) are recorded at the compute_error / update_step_size hooks and replayed
-in the +-eps runs, so all three runs take literally the same accept/reject decisions and step sizes. Invariant at
-the hook: error control executes with autograd disabled.
+in the +-eps runs, so all three runs take literally the same accept/reject decisions and step sizes. Whether the
+error control ran with autograd enabled is recorded as an observation (counter), not a verdict.
 """
 import copy
 import random
@@ -120,9 +120,10 @@ def run_case(case):
         cnt["adaptive_rejections_replayed"] = nrej
         cnt["error_control_calls"] = len(rec_err)
         ge = nominal.grad_enabled_in_error
-        if ge:
-            viol.append({"mechanism": "error_control_with_grad_enabled", "detail": f"{ge} calls {ctx}"})
-        # the step-size returned by the controller must not carry a graph
+        # Observation only (not a verdict): the property is about the gradient values, which the finite-difference
+        # oracle above decides. A controller that ran with autograd enabled but still returned plain floats leaves the
+        # gradients right; one that leaks a graph into the step size shows up as autograd != FD on the frozen schedule.
+        cnt["error_control_calls_with_grad_enabled"] = ge
         nt = nsteps >= 3 and abs(fd) > 1e-6 and nrej >= 1
     else:
         cnt["fixed_runs"] = 1
